@@ -133,7 +133,8 @@ class Run:
         self.files = list(cfg["File"])
         self.sessions = list(cfg["Session"])
         self.maxc = cfg["MaxCommit"]
-        self.world = World(cfg.get("render", "plain"), cfg.get("filefam", "plain"), cfg.get("InitKind", "base"))
+        self.world = World(cfg.get("render", "plain"), cfg.get("filefam", "plain"), cfg.get("InitKind", "base"),
+                           cfg.get("salt", 0))
         self.dir = tempfile.mkdtemp(prefix="run-", dir=scratch)
         self.repo = os.path.join(self.dir, "r")
         self.home = os.path.join(self.dir, "home")
@@ -165,6 +166,7 @@ class Run:
             self.env.pop(k, None)
         self.log = []      # (argv, rc, stderr-tail) of wrapped commands
         self.panics = 0
+        self.blame_failed = 0
         self.plain(["init", "-q", "-b", "main", "."])
         self.plain(["config", "user.email", "dev@example.invalid"])
         self.plain(["config", "user.name", "Dev"])
@@ -350,7 +352,7 @@ class Run:
                                 ent["snap"] = self.world.parse(data)
                                 la = [a for a in e.get("line_attributions", []) if a["author_id"] != "human"]
                                 ent["attr"] = self._attrs_to_map(la)
-                                if ent["attr"]:
+                                if e.get("line_attributions") or e.get("attributions"):
                                     ent["va"] = ent["attr"]
                                 nonhuman = any(a["author_id"] != "human" for a in e.get("line_attributions", [])) or \
                                     any(a["author_id"] != "human" for a in e.get("attributions", []))
@@ -447,7 +449,8 @@ class Run:
                 continue
             key = (self.c2sha[hc], f, nref)
             if key not in self.blame_cache:
-                p = self.gitai_cmd(["blame", "--json", self.world.path(f)])
+                bp = self.world.path(f)
+                p = self.gitai_cmd(["blame", "--json", "./" + bp if bp.startswith("-") else bp])
                 pairs = []
                 ok = p.returncode == 0
                 if ok:
@@ -463,7 +466,9 @@ class Run:
                                     pairs.append((n, self._author(h)))
                     except ValueError:
                         ok = False
-                self.blame_cache[key] = linemap(pairs) if ok else ["?blame-failed"]
+                if not ok:
+                    self.blame_failed += 1
+                self.blame_cache[key] = linemap(pairs) if ok else []
             out[f] = self.blame_cache[key]
         return out
 
@@ -551,6 +556,7 @@ def execute(gitai, scratch, cfg, behaviour, run_id):
             events.append(ev)
             info["notes_detail"] = {str(c): d for c, d in detail.items()}
         info["panics"] = run.panics
+        info["blame_failed"] = run.blame_failed
         info["log"] = [(" ".join(a), rc, err) for a, rc, err in run.log]
         info["shas"] = dict(run.c2sha)
     finally:
